@@ -237,6 +237,16 @@ func TestC20(t *testing.T) {
 		}
 		c := &schemaCase{Variant: rapid.SampledFrom(c20Variants).Draw(t, "variant")}
 		genLibraryScenario(t, &c.Sc)
+		if c.Variant == "reloaded_rules_dynamic" {
+			// REST requests go to the paths of the reloaded rules (other client forms cannot tell)
+			if moved := movedBindings(c.Sc.Client.Service, c.Sc.Client.Method); c.Sc.Client.Form == FormREST && len(moved) > 0 {
+				for i := range moved {
+					moved[i].Selector = c.Sc.Client.Service + "." + c.Sc.Client.Method
+				}
+				c.Sc.Config.Rules = moved
+				c.Sc.Client.Binding = len(annotationBindings(c.Sc.Client.Service, c.Sc.Client.Method)) + c.Sc.Client.Binding%len(moved)
+			}
+		}
 		if c.Variant == "revised_same_path" {
 			for i := range c.Sc.Client.Msgs {
 				if rapid.IntRange(0, 3).Draw(t, "req_extra") > 0 {
